@@ -44,6 +44,12 @@ def pool_for(patterns) -> list[int]:
         except re.error:
             continue
         _collect(tree, pool)
+    # the other case of every ASCII letter that occurs literally (N / n, S / s ...), and the two non-ASCII characters that fold
+    # to ASCII letters: what a case-insensitive compilation of the same pattern text would let in
+    for cp in list(pool):
+        if cp < 128 and chr(cp).isalpha():
+            pool |= {ord(chr(cp).lower()), ord(chr(cp).upper())}
+    pool |= {0x17F, 0x212A}
     for bad in (10, 13, 11, 12, 0x1C, 0x1D, 0x1E, 0x85, 0x2028, 0x2029):
         pool.discard(bad)
     return sorted(pool)
@@ -84,12 +90,33 @@ def _cat_match(cat, cp) -> bool:
     return _cat_cache[key]
 
 
+_IGNORECASE = [False]      # set by compile_pattern for the pattern being compiled (the flag is global to a pattern)
+
+
+def _ci_eq(cp, av) -> bool:
+    """does the literal av match the character cp under re.IGNORECASE?  Asked of the engine itself, one character at a time
+    (simple case folding plus the engine's extra equivalences: U+017F long s, U+212A Kelvin ...)."""
+    try:
+        return re.fullmatch(re.escape(chr(av)), chr(cp), re.IGNORECASE) is not None
+    except re.error:
+        return cp == av
+
+
+def _variants(cp):
+    out = {cp}
+    for c in (chr(cp).lower(), chr(cp).upper(), chr(cp).casefold()):
+        if len(c) == 1:
+            out.add(ord(c))
+    return out
+
+
 def _pred(op, av):
     """single-character node -> predicate on code points"""
+    ci = _IGNORECASE[0]
     if op is C.LITERAL:
-        return lambda cp: cp == av
+        return (lambda cp: _ci_eq(cp, av)) if ci else (lambda cp: cp == av)
     if op is C.NOT_LITERAL:
-        return lambda cp: cp != av
+        return (lambda cp: not _ci_eq(cp, av)) if ci else (lambda cp: cp != av)
     if op is C.ANY:
         return lambda cp: cp != 10
     if op is C.IN:
@@ -100,11 +127,12 @@ def _pred(op, av):
 
         def f(cp):
             hit = False
+            cands = _variants(cp) if ci else {cp}
             for o2, a2 in items:
                 if o2 is C.LITERAL:
-                    hit = hit or cp == a2
+                    hit = hit or (_ci_eq(cp, a2) if ci else cp == a2)
                 elif o2 is C.RANGE:
-                    hit = hit or a2[0] <= cp <= a2[1]
+                    hit = hit or any(a2[0] <= c <= a2[1] for c in cands)
                 elif o2 is C.CATEGORY:
                     hit = hit or _cat_match(a2, cp)
                 else:
@@ -186,11 +214,14 @@ class NFA:
         return st in seen
 
 
-def compile_pattern(pattern: str, pool: list[int]):
-    """-> dict(init=[...], final=[...], edges=[(src, dst, [code points])], states=n) epsilon-free over the pool."""
-    tree = P.parse(pattern)
-    if tree.state.flags & ~(re.UNICODE.value):
+def compile_pattern(pattern: str, pool: list[int], flags: int = 0):
+    """-> dict(init=[...], final=[...], edges=[(src, dst, [code points])], states=n) epsilon-free over the pool.
+    flags: the flags the implementation COMPILED the pattern with (re.IGNORECASE is modelled; the pattern's text alone does
+    not say - round 11, seeded/C07k: recognisers compiled case-insensitively in a base-class hook)."""
+    tree = P.parse(pattern, flags & re.IGNORECASE)
+    if (tree.state.flags | flags) & ~(re.UNICODE.value | re.IGNORECASE.value):
         raise Unsupported("flags")
+    _IGNORECASE[0] = bool((tree.state.flags | flags) & re.IGNORECASE)
     nfa = NFA()
     nfa.at_end = set()
     start = nfa.new()
